@@ -81,10 +81,10 @@ Lemma truth_gbool b : g_truth (gbool b) = b.
 Proof. destruct b; reflexivity. Qed.
 
 Ltac kcbn0 := cbn [bind kwin kwget String.eqb Ascii.eqb Bool.eqb negb andb orb Z.eqb Pos.eqb fst snd
-                   g_eq g_len g_slice g_add g_val2bytes g_is_none gint gbytes gnone pv_eq as_def].
+                   g_eq g_len g_slice slice_of g_add g_val2bytes g_is_none gint gbytes gnone pv_eq as_def].
 Ltac kcbn := kcbn0; rewrite ?truth_gbool;
              cbn [bind kwin kwget String.eqb Ascii.eqb Bool.eqb negb andb orb Z.eqb Pos.eqb fst snd
-                  g_eq g_len g_slice g_add g_val2bytes g_is_none g_truth gint gbytes gbool gnone pv_eq as_def].
+                  g_eq g_len g_slice slice_of g_add g_val2bytes g_is_none g_truth gint gbytes gbool gnone pv_eq as_def].
 
 Ltac step :=
   kcbn;
